@@ -1,3 +1,4 @@
+mod codes;
 mod hdr;
 mod util;
 
@@ -9,6 +10,7 @@ fn main() {
     let a = util::parse_args();
     match a.topic.as_str() {
         "hdr" => hdr::run(&a),
+        "codes" => codes::run(&a),
         t => {
             eprintln!("unknown topic {t}");
             std::process::exit(2);
